@@ -36,6 +36,9 @@ META = {
 KINDS = ("array", "bag", "delayed")
 
 
+GC_EACH_RUN = True  # see sim/worker.run_tape
+
+
 def tier_cfg(tier):
     return {"maxchunks": 5 if tier == "quick" else 8}
 
